@@ -215,7 +215,7 @@ pub fn replay(id: &str, path: &str) -> i32 {
                 // cases of these sections have no single-case entry: re-enumerate (below)
                 "C05" => case.get("ops").is_none(),
                 "C07" => case.get("history").is_none(),
-                "C19" => case["object"] == "harper_wasm::Linter",
+                "C19" => case["object"] == "harper_wasm::Linter" || case.get("shift").is_some(),
                 _ => false,
             } =>
         {
